@@ -337,6 +337,40 @@ class FnEval:
             return S(Lam(e, self))
         if isinstance(e, ast.Dict):
             return S(DictLit(e, self, nid, dict(env)))
+        if isinstance(e, ast.DictComp) and len(e.generators) == 1 and not e.generators[0].is_async:
+            # {k: v for a, b in TABLE.items()} over a table with concrete entries -> a concrete table
+            g = e.generators[0]
+            entries = self._table_entries(g.iter, nid, env, oo)
+            if entries is None:
+                return TOP
+            d = {}
+            for item in entries:
+                env2 = dict(env)
+                if isinstance(g.target, ast.Name):
+                    env2[g.target.id] = item[0] if len(item) == 1 else TOP
+                elif isinstance(g.target, ast.Tuple) and len(g.target.elts) == len(item) and all(isinstance(t, ast.Name) for t in g.target.elts):
+                    for t, v in zip(g.target.elts, item):
+                        env2[t.id] = v
+                else:
+                    return TOP
+                if any(v is TOP for v in env2.values()):
+                    return TOP
+                keep = True
+                for cond in g.ifs:
+                    c = self._eval(cond, nid, env2, oo)
+                    if c is TOP or len(c) != 1:
+                        return TOP
+                    keep = keep and bool(next(iter(c)))
+                if not keep:
+                    continue
+                k, v = self._eval(e.key, nid, env2, oo), self._eval(e.value, nid, env2, oo)
+                if k is TOP or v is TOP or len(k) != 1 or len(v) != 1:
+                    return TOP
+                k, v = next(iter(k)), next(iter(v))
+                if not _hashable(k) or not (v is None or isinstance(v, (str, int, float, bool, tuple))):
+                    return TOP
+                d[k] = v
+            return S(PyDict(d, self.repo, self.mod))
         if isinstance(e, ast.Subscript):
             if self.overrides and norm(e) in self.overrides:
                 return self.overrides[norm(e)]
@@ -378,6 +412,31 @@ class FnEval:
         if isinstance(e, ast.NamedExpr):
             return ev(e.value)
         return TOP
+
+    def _table_entries(self, it, nid, env, oo):
+        """[(key set, value set)] / [(key set,)] for  TABLE.items() / TABLE / TABLE.keys()  over one concrete table, else None."""
+        what = "keys"
+        base = it
+        if isinstance(it, ast.Call) and isinstance(it.func, ast.Attribute) and it.func.attr in ("items", "keys", "values") and not it.args:
+            what, base = it.func.attr, it.func.value
+        b = self._eval(base, nid, env, oo)
+        if b is TOP or len(b) != 1:
+            return None
+        b = next(iter(b))
+        if isinstance(b, PyDict):
+            pairs = [(S(k), lift(v, b.repo, b.mod)) for k, v in b.d.items()]
+        elif isinstance(b, DictLit):
+            items = b.items()
+            if items is None:
+                return None
+            pairs = [(S(k), b.ev._eval(v, b.nid, b.env, False)) for k, v in items]
+        else:
+            return None
+        if what == "items":
+            return pairs
+        if what == "values":
+            return [(v,) for _, v in pairs]
+        return [(k,) for k, _ in pairs]
 
     def _name(self, name, nid, env):
         defs = self.rd.at(nid, name)
@@ -534,7 +593,9 @@ class FnEval:
                 where = ids[0] if ids else nid
                 r = sub._eval(c.node.body, where, env2, False)
             elif isinstance(c, FuncRef):
-                r = summarize_function(self.repo, c.mod, c.node, args)
+                r = _closure_of(c, e, self)
+                if r is None:
+                    r = summarize_function(self.repo, c.mod, c.node, args)
             else:
                 return TOP
             out = union(out, r)
@@ -693,6 +754,38 @@ class ModEval:
 
 
 _SUMMARY_DEPTH = [0]
+
+
+def _closure_of(fref, call, ev):
+    """make(<simple args>)  where  def make(p..): return lambda ..: BODY   ->   the lambda with p.. replaced by the argument
+    expressions (beta reduction), so that a table built from small factories reads like a table of lambdas."""
+    fn = fref.node
+    body = [st for st in fn.body if not (isinstance(st, ast.Expr) and isinstance(st.value, ast.Constant))]
+    if len(body) != 1 or not isinstance(body[0], ast.Return) or not isinstance(body[0].value, ast.Lambda):
+        return None
+    params = [a.arg for a in fn.args.args]
+    if len(params) != len(call.args) or call.keywords or fn.args.vararg or fn.args.kwarg:
+        return None
+    if not all(isinstance(a, (ast.Name, ast.Attribute, ast.Constant)) for a in call.args):
+        return None
+    lam = body[0].value
+    inner = {a.arg for a in lam.args.args}
+    sub = {p: a for p, a in zip(params, call.args) if p not in inner}
+    from .inline import _clone
+
+    class R(ast.NodeTransformer):
+        def visit_Name(self, n):
+            if isinstance(n.ctx, ast.Load) and n.id in sub:
+                return ast.copy_location(_clone(sub[n.id]), n)
+            return n
+    new = R().visit(_clone(lam))
+    ast.copy_location(new, call)
+    ast.fix_missing_locations(new)
+    for parent in ast.walk(new):
+        for child in ast.iter_child_nodes(parent):
+            child.parent = parent
+    new.parent = getattr(call, "parent", None)
+    return S(Lam(new, ev))
 
 
 def summarize_function(repo, mod, fn, args):
